@@ -195,6 +195,13 @@ func Drive(c *Check, tier string, seed int64) int {
 			inconclusive = append(inconclusive, fmt.Sprintf("worker %d hit the wall-clock watchdog at job %d case %d", w, jobIdx, caseIdx))
 		case strings.Contains(logs, "out of memory") || strings.Contains(logs, "cannot allocate memory") || strings.Contains(fmt.Sprint(results[w].err), "killed"):
 			inconclusive = append(inconclusive, fmt.Sprintf("worker %d ran out of memory at job %d case %d", w, jobIdx, caseIdx))
+		case !strings.Contains(logs, "stack overflow") && !strings.Contains(logs, "goroutine stack exceeds") && crashedInHarness(logs):
+			// a bug of the harness itself is not an observation about the library
+			banner := logs
+			if len(banner) > 1500 {
+				banner = banner[:1500]
+			}
+			inconclusive = append(inconclusive, fmt.Sprintf("worker %d crashed inside the harness (job %d case %d): %s", w, jobIdx, caseIdx, strings.ReplaceAll(banner, "\n", " | ")))
 		default:
 			kind := "fatal-crash"
 			if strings.Contains(logs, "stack overflow") || strings.Contains(logs, "goroutine stack exceeds") {
@@ -331,6 +338,20 @@ func Drive(c *Check, tier string, seed int64) int {
 		os.RemoveAll(outdir)
 	}
 	return code
+}
+
+// crashedInHarness: the innermost non-runtime frame of the crash banner belongs to the harness
+func crashedInHarness(logs string) bool {
+	for _, line := range strings.Split(logs, "\n") {
+		if !strings.HasPrefix(line, "\t/") {
+			continue
+		}
+		if strings.Contains(line, "/src/runtime/") || strings.Contains(line, "/src/internal/") {
+			continue
+		}
+		return strings.Contains(line, "/harness/")
+	}
+	return false
 }
 
 func sanitize(s string) string {
